@@ -18,8 +18,8 @@ REAL = ["train_dqn/nature_dqn/ddqn/ddqn_per", "q_policy.greedy_policy", "schedul
 STUB = ["environment", "action-space sampler (recording)"]
 ASSUMPTIONS = ["only the loop-level clause of C13 is decided; closed-form log-probabilities, entropies and sampling forms are pure and not addressed",
                "greedy accepted if Q[a] >= max Q - 1e-6*(1+|max Q|)"]
-TIERS = {"quick": {"runs": 120}, "thorough": {"runs": 3000}}
-REQUIRED = ["greedy_steps", "sampled_action_passed_through", "tabular_greedy_steps", "eps1_twin_runs", "exploration_counts"]
+TIERS = {"quick": {"runs": 200}, "thorough": {"runs": 4000}}
+REQUIRED = ["resumed_with_global_step", "greedy_steps", "sampled_action_passed_through", "tabular_greedy_steps", "eps1_twin_runs", "exploration_counts"]
 REQUIRED_QUICK = REQUIRED
 SHRINK_LISTS = [["env", "script"], ["script"]]
 SHRINK_INTS = []
@@ -56,6 +56,8 @@ def make_plan(rng, tier, index):
         plan = trainplan.base_plan(rng, PROPERTY, ["C13.a", "C13.b", "C01.d"], name, T=rng.choice([30, 40, 60]))
         plan["kind"] = "dqn"
         plan["logger"] = False
+        T = plan["chain"][0]["total_timesteps"]
+        plan["start_step"] = rng.choice([0, T // 4, T // 3, T // 2])  # a run continued with global_step > 0 keeps the schedule position
         return plan
     algo = TAB[(index // 2) % len(TAB)]
     plan = tabsim.make_tab_plan(rng, algo, rng.choice([5, 10, 20, 40]))
@@ -80,13 +82,22 @@ def execute(plan):
     ls = plan["cfg"].get("learning_starts", 0) if plan["adapter"] != "dqn" else 0
     eps = eps_schedule(T)
     ps, k = [], 0
+    start = plan.get("start_step", 0)
+    if start:
+        out.fault("resumed_with_global_step")
     for s in env.steps():
-        i = s["i"]
+        i = start + s["i"]
         if i >= ls and i < T:
             ps.append(eps[i])
             k += 1 if s["sampled"] else 0
         elif i < ls and not s["sampled"] and "C13.a" in plan["clauses"]:
             out.violate("C13.a", "train_" + plan["adapter"], f"step {i} < learning_starts={ls} did not use the sampler")
+    if start:
+        # window right after a resume: the schedule position must be the GLOBAL step (a restarted schedule explores with eps ~ 1 here)
+        n_tr = max(1, int(T * 0.1))
+        w = [s for s in env.steps() if start + s["i"] >= ls and s["i"] < n_tr and start + s["i"] < T]
+        if w:
+            out.extra["resume_window"] = {"ps": [eps[start + s["i"]] for s in w], "k": sum(1 for s in w if s["sampled"]), "site": "train_" + plan["adapter"] + "_resumed"}
     if ps:
         lo, hi = pb_tails(ps, k)
         out.extra["explore"] = {"ps": ps, "k": k}
@@ -111,6 +122,20 @@ def finalize(records):
         if min(lo, hi) < 1e-9:
             out.append({"clause": "C13.b", "site": "dqn_family_pooled", "indices": idx,
                         "detail": f"pooled over {len(idx)} runs: {k} exploratory steps among {len(ps)}, expectation {sum(ps):.1f} (tail {min(lo, hi):.2g})"})
+    groups = {}
+    for r in records:
+        e = r.get("extra", {}).get("resume_window")
+        if e:
+            for g in ("dqn_family_resumed", e.get("site", "dqn_family_resumed")):
+                groups.setdefault(g, [[], 0, []])
+                groups[g][0] += e["ps"]
+                groups[g][1] += e["k"]
+                groups[g][2].append(r["index"])
+    for g, (ps, k, idx) in sorted(groups.items()):
+        lo, hi = pb_tails(ps, k)
+        if min(lo, hi) < 1e-9:
+            out.append({"clause": "C13.b", "site": g, "indices": idx,
+                        "detail": f"first steps after resuming with global_step > 0, pooled over {len(idx)} runs: {k} exploratory steps among {len(ps)}, the schedule at the global step gives expectation {sum(ps):.1f} (tail {min(lo, hi):.2g})"})
     # epsilon=1: pooled action frequencies uniform (chi-square, threshold 1e-9 via Wilson-Hilferty)
     by_n = {}
     for r in records:
